@@ -11,6 +11,8 @@ type Gen struct {
 	r     *Rng
 	stats *Stats
 	step  int
+	// recent transaction lines (without their step number), replayed now and then as dropped executions
+	recent []string
 }
 
 func (g *Gen) n() int { g.step++; return g.step }
